@@ -322,14 +322,22 @@ unsafe impl Allocator for Ledger {
             if layout.size() == 0 || !layout.align().is_power_of_two() || layout.size() > isize::MAX as usize - (layout.align() - 1) {
                 c.alloc_errors.push(format!("invalid layout requested: size={} align={}", layout.size(), layout.align()));
             }
-            countdown(&mut c.refuse_nth)
+            // requests the machine cannot serve are refused here, deterministically and on the
+            // record, instead of depending on what the system allocator answers
+            countdown(&mut c.refuse_nth) || layout.size() > (1usize << 36)
         });
         if refuse {
             with_ctx(|c| c.ev_log.push(('R', layout.size() as u64, layout.align() as u64, 0)));
             return Err(AllocError);
         }
         let (ol, pad) = outer_layout(layout);
-        let raw = Global.allocate(ol)?;
+        let raw = match Global.allocate(ol) {
+            Ok(r) => r,
+            Err(e) => {
+                with_ctx(|c| c.ev_log.push(('R', layout.size() as u64, layout.align() as u64, 0)));
+                return Err(e);
+            }
+        };
         let base = raw.as_ptr() as *mut u8;
         unsafe {
             std::ptr::write_bytes(base, RZ_BYTE, pad);
